@@ -55,7 +55,7 @@ def lean_modules_of(prop_file):
     return sorted(seen)
 
 
-def lean_stage(pid, extra_props=()):
+def lean_stage(pid, extra_props=(), tier="quick"):
     """returns dict(ok, obligations, discharged, theorems, problems, checker_cmd)"""
     res = {"ok": True, "obligations": 0, "discharged": 0, "theorems": [], "problems": [], "axioms": {}}
     ok, log = lean_build()
@@ -113,6 +113,14 @@ def lean_stage(pid, extra_props=()):
     if not theorems:
         res["ok"] = False
         res["problems"].append({"kind": "no-theorems", "detail": files[0]})
+    if tier == "thorough" and res["ok"]:
+        # independent re-check of the compiled proofs
+        lc = subprocess.run(["lake", "env", "leanchecker"] + mods, cwd=LEAN, capture_output=True, text=True)
+        res["leanchecker"] = "ok" if lc.returncode == 0 else (lc.stdout + lc.stderr)[-800:]
+        if lc.returncode != 0:
+            res["ok"] = False
+            res["problems"].append({"kind": "leanchecker", "detail": res["leanchecker"]})
+        res["checker_cmd"] += f" && lake env leanchecker {' '.join(mods)}"
     return res
 
 
